@@ -140,6 +140,8 @@ pub struct FileCfg {
 
 /// a well-formed file: blocks at the given origins (kept disjoint by the caller's spacing), every name defined exactly once,
 /// externals declared at a random place (before, between or after their uses; inside or outside a block) and used in `.fill`
+thread_local! { pub static TOUCH_BLOCKS: std::cell::Cell<bool> = const { std::cell::Cell::new(false) }; }
+
 pub fn gen_file(rng: &mut Rng, cfg: &FileCfg) -> Vec<GStmt> {
     let nblocks = (1 + rng.below(cfg.origins.len().min(3) as u64)) as usize;
     let mut stmts: Vec<GStmt> = vec![]; let mut unplaced = cfg.names.clone();
@@ -156,6 +158,18 @@ pub fn gen_file(rng: &mut Rng, cfg: &FileCfg) -> Vec<GStmt> {
         let mut e = GStmt { labels: vec![], mnem: ".end".into(), ops: vec![], size: 0 };
         if b + 1 == nblocks { while let Some(l) = unplaced.pop() { e.labels.push(l); } }
         stmts.push(e);
+    }
+    // touching blocks: sometimes one block is moved so that it starts exactly where another one ends (the blocks appear in
+    // either address order in the source); abandoned if the moved block would then collide with anything
+    if nblocks >= 2 && TOUCH_BLOCKS.with(|c| c.get()) && rng.chance(1, 2) {
+        let l = layout(&stmts);
+        if l.bad.is_empty() && l.blocks.len() >= 2 {
+            let i = rng.below(l.blocks.len() as u64) as usize; let mut j = rng.below(l.blocks.len() as u64 - 1) as usize; if j >= i { j += 1; }
+            let (si, li, _) = l.blocks[i]; let (_, _, oj) = l.blocks[j];
+            let old = stmts[oj].ops[0].clone();
+            stmts[oj].ops[0] = Op::ImmU(si + li);
+            if !layout(&stmts).bad.is_empty() { stmts[oj].ops[0] = old; }
+        }
     }
     // .external declarations anywhere (index 0 = before the first .orig, len = after the last .end)
     for e in &cfg.externals { let at = rng.below(stmts.len() as u64 + 1) as usize; stmts.insert(at, GStmt { labels: vec![], mnem: ".external".into(), ops: vec![Op::Lbl(e.clone())], size: 0 }); }
